@@ -511,6 +511,13 @@ func monC19(c *drv.Ctx) {
 			cs.Fail("callback-arguments", nil, M{"message": "a registered callback did not receive exactly the arguments given"})
 			return
 		}
+		// "exactly the arguments given" includes absent ones: a nil reader / writer / value is handed through as it is
+		gotR, gotW, gotV2, gotV3 = rd, wr, 1, 1
+		r4, r5 := apache.ThriftRead(nil, nil), apache.ThriftWrite(nil, nil)
+		if r4 != res || r5 != res || gotR != nil || gotW != nil || gotV2 != nil || gotV3 != nil {
+			cs.Fail("callback-arguments", M{"arguments": "nil"}, M{"message": "a registered callback called with a nil reader / writer / value did not receive exactly those", "results": fmt.Sprint(r4, r5)})
+			return
+		}
 		// re-registration replaces; nil unregisters again
 		apache.RegisterThriftRead(nil)
 		if apache.ThriftRead(rd, v) != e2 && apache.ThriftRead(rd, v) == nil {
